@@ -26,8 +26,7 @@ def programs(t):
             for (rep, e) in ([('i8', -2), ('i32', -2), ('i32', -16), ('i64', -31), ('u16', -4), ('i16', 3)] if not t else
                              [('i8', -2), ('i8', -7), ('i16', -8), ('i16', 3), ('i32', -2), ('i32', -16), ('i32', -30), ('i64', -31), ('i64', -62), ('u16', -4), ('u32', -31), ('i32', 5)]):
                 lines.append(line(f, T(rep, e), tag, 'VIA_CONVERT'))
-                if rep[0] == 'i':
-                    lines.append(line(f, T(rep, e), tag, 'VIA_CTOR'))
+                lines.append(line(f, T(rep, e), tag, 'VIA_CTOR'))
         # class-type integer destinations (elastic_integer, overflow_integer, wide_integer) and scaled_integer over them
         for f in floats:
             for d in ['E15', 'E31', 'OVS'] + (['W100'] if t else []):
@@ -35,7 +34,7 @@ def programs(t):
             lines.append(line(f, T('E15', -4), tag, 'VIA_CONVERT'))
         # finer scaled -> coarser scaled / integer, and loss-free
         shifts = [1, 2, 3, 7, 8, 15, 30] if t else [1, 3, 8, 15]  # < 31: half() converts the int literal 1 through the shift
-        for (srep, drep) in ([('i8', 'i8'), ('i16', 'i8'), ('i32', 'i32'), ('i32', 'i16'), ('i64', 'i32'), ('i64', 'i64'), ('u8', 'u8'), ('i32', 'i64')] if not t else
+        for (srep, drep) in ([('i8', 'i8'), ('i16', 'i8'), ('i32', 'i32'), ('i32', 'i16'), ('i64', 'i32'), ('i64', 'i64'), ('u8', 'u8'), ('i32', 'i64'), ('u32', 'u32'), ('u64', 'u64')] if not t else
                              [('i8', 'i8'), ('u8', 'u8'), ('i16', 'i8'), ('i16', 'i16'), ('u16', 'u8'), ('i32', 'i32'), ('i32', 'i16'), ('i32', 'i64'), ('i64', 'i32'), ('i64', 'i64'), ('u32', 'u32'), ('u64', 'u64'), ('i8', 'i32')]):
             for sh in shifts:
                 if sh >= g.promoted_digits(srep):
@@ -46,7 +45,7 @@ def programs(t):
                     if abs(se) >= 31 or abs(de) >= 31:  # the literal 0 is an int
                         continue
                     lines.append(line(T(srep, se), T(drep, de), tag, 'VIA_CONVERT'))
-                    if srep[0] == 'i' and drep[0] == 'i' and sh in (1, 8):
+                    if srep[0] == drep[0] and sh in (1, 3, 8):
                         lines.append(line(T(srep, se), T(drep, de), tag, 'VIA_CTOR'))
                 # scaled -> built-in integer goes through a scaled_integer<Dest, power<0>> destination
                 lines.append(line(T(srep, -sh), T(drep, 0), tag, 'VIA_CONVERT'))
@@ -54,7 +53,7 @@ def programs(t):
             if tag != 'NEA':  # convert<nearest_rounding_tag, finer-or-equal destination> is not instantiable (empty specialisation)
                 lines.append(line(T(srep, -2), T(drep, -4), tag, 'VIA_CONVERT'))
                 lines.append(line(T(srep, -3), T(drep, -3), tag, 'VIA_CONVERT'))
-            if srep[0] == 'i' and drep[0] == 'i':
+            if srep[0] == drep[0]:
                 lines.append(line(T(srep, -2), T(drep, -4), tag, 'VIA_CTOR'))
                 lines.append(line(T(srep, -3), T(drep, -3), tag, 'VIA_CTOR'))
     return lines
